@@ -41,6 +41,11 @@ Theorem C18_reclassification_stable : forall e ic a, classify e ic = Ok a -> cla
 Proof. exact classify_idem. Qed.
 Print Assumptions C18_reclassification_stable.
 
+(* the arm `raise NotImplementedError('Indexed case')` of EssentialBC.__new__ can never run *)
+Theorem C18_indexed_arm_dead : forall e ic, snd (classify_tag e ic) <> "order1/indexed".
+Proof. exact indexed_order1_unreachable. Qed.
+Print Assumptions C18_indexed_arm_dead.
+
 (* ---------------------------------------------------------------- unions of faces *)
 Theorem C18_union_is_canonical : forall raw, face_wf raw ->
   let l := canon face_eqb fc_str raw in
@@ -48,6 +53,12 @@ Theorem C18_union_is_canonical : forall raw, face_wf raw ->
   StronglySorted (kle fc_str) l.
 Proof. exact mk_bnd_spec. Qed.
 Print Assumptions C18_union_is_canonical.
+
+(* the hypothesis [bc_wf] of the theorems below holds of every object the constructor makes *)
+Theorem C18_constructed_conditions_wf : forall lhs rhs bd pos ic b,
+  essential_new lhs rhs bd pos ic = Ok b -> bc_wf b.
+Proof. exact essential_new_wf. Qed.
+Print Assumptions C18_constructed_conditions_wf.
 
 (* ------------------------------------------------------- the list of conditions *)
 (* eq.bc = the given conditions in order, each replaced by its block *)
@@ -218,8 +229,8 @@ Proof. exact later_call_keeps. Qed.
 Print Assumptions C18_shared_condition_partial.
 
 (* ------------------------------------------------------------------ non-vacuity *)
-Definition ex_u := mkFn 0 "u" false 2.
-Definition ex_p := mkFn 1 "p" true 2.
+Definition ex_u := mkFn 0 0 "u" false 2.
+Definition ex_p := mkFn 1 1 "p" true 2.
 Definition ex_f1 := mkFace 0 "A_\Gamma_1" "A" 0%Z (-1)%Z.
 Definition ex_f2 := mkFace 1 "AB_\Gamma_4" "AB" 1%Z 1%Z.
 Definition ex_f3 := mkFace 2 "A_\Gamma_3" "A" 1%Z (-1)%Z.
